@@ -3,6 +3,7 @@
 //
 //	input  := (K KV0 (ACTION…))      K tasks per environment, KV0: mesos_fid pre-seeded
 //	ACTION := (env POINT) | (kill) | (term) | (drop clean|abrupt) | (destroy N) | (stubborn silent|killing)
+//	        | (park N destroy|cleanup) (env configured|running|standby)… (unpark)
 //	POINT  := launching | configuring | configured | starting | running | stopping | standby | teardown | destroyed
 //	obs    := (EV…)  see world.go:observation and lean/Driver/C18.lean
 package c18
@@ -139,6 +140,77 @@ func randomSurvivor(r *rng.R) fw.Case {
 	return cs(s, "random", "survivor", "stubborn:"+mode)
 }
 
+// overlaps: the teardown of one environment OVERLAPS the deployment of others. doKillTasks writes the roster,
+// makes its Mesos KILL calls (one HTTP round trip each) and only then returns; acquireTasks of another
+// environment shares no lock with it and appends its freshly launched tasks to the roster inside that window.
+// (park N VIA) starts the teardown of environment N — VIA destroy: DestroyEnvironment; cleanup: DestroyEnvironment
+// keeping the tasks, then CleanupTasks — with the master holding the answers to the KILL calls back (sim.HoldCalls),
+// the environments created before (unpark) are deployed in the window, then the answers go out. What the
+// property needs of the core here: every task owned by a live environment is still known as owned afterwards
+// (GetTasks roster = what GetEnvironments says the environments hold = the model's roster/held), so that the
+// reconciliation answer of the next (re-)subscription kills none of them.
+func overlaps() []fw.Case {
+	var out []fw.Case
+	n := 0
+	add := func(tags []string, acts ...action) {
+		n++
+		out = append(out, cs(mk(1+n%2, false, acts...), append([]string{"overlap"}, tags...)...))
+	}
+	env := func(p string) action { return action{"env", p} }
+	park := func(i int, via string) action { return action{"park", fmt.Sprintf("%d %s", i, via)} }
+	unpark := action{"unpark", ""}
+	// one environment deployed in the window, then a re-subscription
+	add([]string{"via:destroy", "meanwhile:1", "dist:drop-clean"}, env("configured"), park(0, "destroy"), env("configured"), unpark, action{"drop", "clean"})
+	add([]string{"via:destroy", "meanwhile:1", "dist:drop-abrupt"}, env("running"), park(0, "destroy"), env("running"), unpark, action{"drop", "abrupt"})
+	add([]string{"via:cleanup", "meanwhile:1", "dist:drop-clean"}, env("standby"), park(0, "cleanup"), env("configured"), unpark, action{"drop", "clean"})
+	// two environments deployed in the window
+	add([]string{"via:cleanup", "meanwhile:2", "dist:drop-abrupt"}, env("configured"), park(0, "cleanup"), env("configured"), env("running"), unpark, action{"drop", "abrupt"})
+	// the other environment exists BEFORE the teardown starts / is created AFTER it ended
+	add([]string{"via:destroy", "meanwhile:0", "before", "dist:drop-clean"}, env("configured"), env("configured"), park(1, "destroy"), unpark, action{"drop", "clean"})
+	add([]string{"via:destroy", "meanwhile:0", "after", "dist:drop-clean"}, env("running"), park(0, "destroy"), unpark, env("configured"), action{"drop", "clean"})
+	// before AND in the window, two reconciliation rounds
+	add([]string{"via:destroy", "meanwhile:1", "before", "rounds:2"}, env("configured"), env("running"), park(0, "destroy"), env("configured"), unpark, action{"drop", "clean"}, action{"drop", "abrupt"})
+	// the environment deployed in the window is destroyed in turn, then a re-subscription: nothing of it may be left
+	add([]string{"via:destroy", "meanwhile:1", "then-destroyed", "dist:drop-clean"}, env("configured"), park(0, "destroy"), env("configured"), unpark, action{"destroy", "1"}, action{"drop", "clean"})
+	// a restart instead: now the tasks deployed in the window ARE orphans and must be killed
+	add([]string{"via:destroy", "meanwhile:1", "dist:kill"}, env("configured"), park(0, "destroy"), env("configured"), unpark, action{"kill", ""})
+	add([]string{"via:cleanup", "meanwhile:1", "dist:term"}, env("running"), park(0, "cleanup"), env("configured"), unpark, action{"term", ""})
+	return out
+}
+
+// randomOverlap: optionally an environment before, one environment torn down with its KILL calls parked, 0-2
+// settled environments deployed in the window, optionally one after, then 1-2 disturbances (mostly stream drops).
+func randomOverlap(r *rng.R) fw.Case {
+	s := &scenario{k: r.Range(1, 3), kv0: r.P(1, 8)}
+	live := settledPoints[:3]
+	envs := 0
+	if r.P(1, 3) {
+		s.acts = append(s.acts, action{"env", rng.Pick(r, live)})
+		envs++
+	}
+	s.acts = append(s.acts, action{"env", rng.Pick(r, live)})
+	via := rng.Pick(r, []string{"destroy", "cleanup"})
+	s.acts = append(s.acts, action{"park", fmt.Sprintf("%d %s", envs, via)})
+	envs++
+	m := r.Range(0, 2)
+	for i := 0; i < m; i++ {
+		s.acts = append(s.acts, action{"env", rng.Pick(r, live)})
+		envs++
+	}
+	s.acts = append(s.acts, action{"unpark", ""})
+	if envs < 4 && r.P(1, 4) {
+		s.acts = append(s.acts, action{"env", rng.Pick(r, live)})
+	}
+	for i, n := 0, r.Range(1, 2); i < n; i++ {
+		if r.P(1, 5) {
+			s.acts = append(s.acts, rng.Pick(r, []action{{"kill", ""}, {"term", ""}}))
+		} else {
+			s.acts = append(s.acts, action{"drop", rng.Pick(r, []string{"clean", "abrupt"})})
+		}
+	}
+	return cs(s, "random", "overlap", "via:"+via, fmt.Sprintf("meanwhile:%d", m))
+}
+
 var settledPoints = []string{"configured", "running", "standby", "destroyed"}
 var inflightPoints = []string{"launching", "configuring", "starting", "stopping", "teardown"}
 
@@ -191,9 +263,9 @@ func randomScenario(r *rng.R) fw.Case {
 
 func generate(tier string, r *rng.R) []fw.Case {
 	out := grid()
-	n, ns := 12, 6
+	n, ns, no := 12, 6, 4
 	if tier == "thorough" {
-		n, ns = 320, 80
+		n, ns, no = 320, 80, 60
 	}
 	for i := 0; i < n; i++ {
 		out = append(out, randomScenario(r.Fork()))
@@ -202,6 +274,10 @@ func generate(tier string, r *rng.R) []fw.Case {
 	out = append(out, survivors()...)
 	for i := 0; i < ns; i++ {
 		out = append(out, randomSurvivor(r.Fork()))
+	}
+	out = append(out, overlaps()...)
+	for i := 0; i < no; i++ {
+		out = append(out, randomOverlap(r.Fork()))
 	}
 	return out
 }
@@ -213,6 +289,9 @@ func search(r *rng.R) []fw.Case {
 	}
 	for i := 0; i < 30; i++ {
 		out = append(out, randomSurvivor(r.Fork()))
+	}
+	for i := 0; i < 30; i++ {
+		out = append(out, randomOverlap(r.Fork()))
 	}
 	return out
 }
@@ -278,14 +357,17 @@ func init() {
 			"disturbances, 0-3 environments at random points, 1-3 tasks, optional destroy. SURVIVORS (tag survivor): the tasks alive before a restart are made " +
 			"stubborn (KILL without effect | task hangs in TASK_KILLING), so the orphans OUTLIVE the new life's KILL, and 1-2 further reconciliation rounds follow in the " +
 			"same life (clean/abrupt stream drop, re-subscription) or a third life: 14 fixed scripts {silent, killing} x {settled, in-flight, after SIGTERM, 3 rounds, " +
-			"new life owning an environment, 3 lives} + 6 (thorough 80) random ones. Every disturbance is bracketed by barrier-ordered quiet points " +
-			"(GetTasks, GetEnvironments, mesos_fid, master's live rows). non-trivial = the master answered a reconciliation about at least one real task; distinct by input text",
+			"new life owning an environment, 3 lives} + 6 (thorough 80) random ones. OVERLAPS (tag overlap): one environment is torn down (via:destroy = DestroyEnvironment, " +
+			"via:cleanup = DestroyEnvironment keeping the tasks + CleanupTasks) while the master holds the answers to its KILL calls back, i.e. doKillTasks sits between its two " +
+			"roster writes, 0-2 other environments are deployed in that window (meanwhile:N; also: created before / after it), then the answers go out and a re-subscription " +
+			"(or a restart) follows: 10 fixed scripts + 4 (thorough 60) random ones. Every disturbance is bracketed by barrier-ordered quiet points " +
+			"(GetTasks, GetEnvironments with the tasks every environment holds, mesos_fid, master's live rows). non-trivial = the master answered a reconciliation about at least one real task; distinct by input text",
 		Shrink:     shrink,
 		Search:     search,
 		Workers:    8,
 		Exhaustive: func(string) bool { return false },
 		TrustedBase: []string{
-			"harness/sim (whole-core simulator: Mesos master/agents/executors, Consul KV, workflow repository; core child through core.RunForVerif) + sim.InjectUpdate (added for the barrier)",
+			"harness/sim (whole-core simulator: Mesos master/agents/executors, Consul KV, workflow repository; core child through core.RunForVerif) + sim.InjectUpdate (added for the barrier) + sim.HoldCalls (keeps the HTTP answer of chosen calls back: a call in flight)",
 			"harness/props/c18/world.go: scripts, barrier-based quiescence, projection of the master trace (tasks, environments, framework ids renamed by first appearance)",
 			"lean/Driver/C18.lean: the monitor that replays the observed trace as a history of Model/Reconcile.lean and rebuilds the log the Spec is evaluated on",
 			"go/ast fact extraction harness/props/c18/facts.go",
